@@ -137,6 +137,16 @@ func (Time) Run(c *orch.Case) *orch.Outcome {
 	for i, sc := range in.Scs {
 		spec := world.Content([]string{"GA1", "GA2"}[i%2])
 		spec.Subject.Conf.Data.NotOnOrAfter = renderTV(sc, rng)
+		// nothing obliges the assertions of a Response to have distinct (or any) identifiers: under a signed Response
+		// they may share one, or have none
+		if c.Seed%2 == 0 && len(in.Scs) > 1 {
+			switch (c.Seed / 2) % 3 {
+			case 1:
+				spec.ID = "_assert-same"
+			case 2:
+				spec.NoID = true
+			}
+		}
 		if i == 0 {
 			spec.Conditions.NotBefore = renderTV(in.Nb, rng)
 			spec.Conditions.NotOnOrAfter = renderTV(in.Cnoa, rng)
